@@ -69,16 +69,26 @@ func (obj Fixnum) Equal(other Object) (eq bool) {
 	case Integer:
 		eq = to.IsInt64() && int64(obj) == to.Int64()
 	case SingleFloat:
-		eq = SingleFloat(obj) == to
+		eq = obj.equalFloat(float64(to))
 	case DoubleFloat:
-		eq = DoubleFloat(obj) == to
+		eq = obj.equalFloat(float64(to))
 	case *LongFloat:
-		eq = big.NewFloat(float64(obj)).Cmp((*big.Float)(to)) == 0
+		i, acc := (*big.Float)(to).Int64()
+		eq = acc == big.Exact && i == int64(obj)
 	case *Ratio:
 		rat := (*big.Rat)(to)
 		eq = rat.IsInt() && rat.Num().IsInt64() && rat.Num().Int64() == int64(obj)
 	}
 	return
+}
+
+// equalFloat returns true if f has exactly the value of the fixnum. The
+// fixnum is not converted to a float as that rounds it when more than 53 bits
+// are needed.
+func (obj Fixnum) equalFloat(f float64) bool {
+	const two63 = 9223372036854775808.0
+
+	return -two63 <= f && f < two63 && int64(f) == int64(obj) && float64(int64(f)) == f
 }
 
 // Hierarchy returns the class hierarchy as symbols for the instance.
